@@ -14,7 +14,31 @@ WEIGHTS = {}
 
 run = sesscheck.make_run(ID, PROPS, 700, 6000, weights=WEIGHTS,
                          nontrivial=lambda program, stats: stats.get('commits', 0) > 1 and (stats.get('op:del', 0) + stats.get('op:crem', 0) + stats.get('op:set', 0) + stats.get('op:setm', 0)) > 0)
-replay = sesscheck.make_replay(ID, PROPS)
+_replay_session = sesscheck.make_replay(ID, PROPS)
+_run_session = run
+
+
+def run(ctx):
+    _run_session(ctx)
+    if ctx.violation is not None:
+        return
+    # write histories over keys that contain references (vlib/nested_hist.py); this check judges the 'db' category
+    from vlib import nested_hist
+
+    def th(case):
+        msg = nested_hist.judge(case, 'db')
+        nops = sum(len(s_['ops']) for s_ in case['sessions'])
+        ctx.case(key=case, nontrivial=nops >= 4, classes=['nested_hist'], sample={'sessions': [[o[0] for o in s_['ops']] for s_ in case['sessions']]} if nops >= 6 else None)
+        if msg:
+            ctx.fail(case, msg)
+    ctx.run_test(th, dict(case=nested_hist.cases()), max_examples=ctx.scale(200, 2000), name='C09_nested_hist')
+
+
+def replay(case):
+    if case.get('kind') == 'nested_hist':
+        from vlib import nested_hist
+        return nested_hist.judge(case, 'db')
+    return _replay_session(case)
 
 MANIFEST = {
     'text': 'Generated multi-session histories over generated diagrams, each compared table-by-table (rows, scalar values, foreign keys, link rows) with an independent in-memory reference store after every commit, rollback and failed session.',
